@@ -687,4 +687,11 @@ example : hasBlock heightOf none (some 7) 7 107 = true ∧ hasBlock heightOf non
 
 end Example
 
+/-- **C13 (the routing calls hold the manager's mutex for their whole body)**: regenerated from node_manager.go on
+    every run. This is what lets the model replay a routing call under one constant view of the nodes, and what makes
+    concurrent callers of `RequestHeaders` / `RequestTxs` / `RequestBlock` / `SendTx` equivalent to a sequence of them. -/
+theorem C13_routing_lock_shapes :
+    (Facts.lockShapes.filter (fun e => e.1 ∈ ["NodeManager.RequestBlock", "NodeManager.RequestHeaders",
+      "NodeManager.RequestTxs", "NodeManager.SendTx"])).map (·.2) = List.replicate 4 "lock-defer" := by decide
+
 end BRV.Mgr
